@@ -6,6 +6,7 @@
   Specific part: panoptica's descriptors — as extracted from the current source on every run
   (Extracted/Config.lean: `Generated.classes = expectedClasses`) — are well formed.
 -/
+import Panoptica.Proofs.Basic
 import Panoptica.Proofs.Config
 namespace Panoptica.C19
 open Panoptica.Cfg
@@ -94,5 +95,22 @@ theorem panoptica_params_represented :
 /-- enum values are (de)serialised by member name: names are pairwise distinct within each enum -/
 theorem enum_names_distinct : ∀ e ∈ expectedEnums, e.2.Nodup := by
   decide
+
+/-- The one normalisation a constructor applies to a list-valued setting — `LabelGroup` stores
+    `sorted(set(value_labels))`, in the model `uniqueSorted` — is idempotent and independent of the order
+    in which the labels were given, so it satisfies `SemOK.norm_idem` by theorem, not by assumption.
+    (Before the repair the code stored `list(set(value_labels))`; CPython iterates `{3, 19}` as `[19, 3]`
+    or `[3, 19]` depending on insertion order, so that normalisation was neither: save → load → save wrote
+    a different file. Found by the class-group generator, repaired in /repo, see known_findings.json.) -/
+theorem label_norm_idem (l : List Nat) : uniqueSorted (uniqueSorted l) = uniqueSorted l :=
+  uniqueSorted_idem l
+
+theorem label_norm_order_free (l l' : List Nat) (h : ∀ x, x ∈ l ↔ x ∈ l') : uniqueSorted l = uniqueSorted l' := by
+  apply sorted_ext _ _ (uniqueSorted_sorted l) (uniqueSorted_sorted l')
+  intro x
+  rw [mem_uniqueSorted, mem_uniqueSorted]
+  exact h x
+
+example : uniqueSorted [19, 3] = uniqueSorted [3, 19] := by decide
 
 end Panoptica.C19
